@@ -684,6 +684,14 @@ func filterFor(prop string, vs []verifkit.Violation) []verifkit.Violation {
 			// and the retry the error asks for is possible
 			v.Key = "C16/not-cleanly-stopped-after-apply:" + v.Key
 		}
+		if prop == "C17" && (strings.HasPrefix(v.Key, "C10/shutdown-status") || (strings.HasPrefix(v.Key, "C10/stop-request-status") && strings.Contains(v.Text, "StopAll"))) {
+			// lifecycle Init resumes exactly the pipelines stored as SystemStopped (pipeline Init turns a stored Running into
+			// it): any other status left by a graceful shutdown means the running pipeline is not found again
+			v.Key = "C17/running-pipeline-not-stored-as-resumable"
+		}
+		if prop == "C20" && (strings.HasPrefix(v.Key, "C10/fatal-cause-recovered") || strings.HasPrefix(v.Key, "C10/fatal-cause-not-degraded")) {
+			v.Key = "C20/fatal-mark-lost-between-node-and-service/" + v.Key[strings.LastIndex(v.Key, "/")+1:]
+		}
 		if prop == "C09" {
 			// C09 on the full stack: whatever shape a plugin replies with, the engine neither acknowledges an affected
 			// record nor fails to terminate. (Panics are caught by the driver: the crashing schedule is journaled.)
